@@ -120,6 +120,7 @@ func (x *Exec) binop(st *State, fr *Frame, in *ssa.BinOp) Val {
 	}
 	if isFloat(rt) {
 		x.usedFloatArith = true
+		x.faCount++
 		as, bs := x.term(a), x.term(b)
 		if x.te.FMode == FloatIEEE {
 			op := map[token.Token]string{token.ADD: "fp.add", token.SUB: "fp.sub", token.MUL: "fp.mul", token.QUO: "fp.div"}[in.Op]
@@ -424,6 +425,7 @@ func (x *Exec) convert(st *State, fr *Frame, in *ssa.Convert) Val {
 			return Val{S: floatLit(x.te, float64(k)), T: to}
 		}
 		x.usedFloatArith = true
+		x.faCount++
 		return Val{S: x.S.Define("f", fpSort, "((_ to_fp 11 53) RNE (to_real "+x.term(v)+"))"), T: to}
 	case isFloat(from) && isInteger(to):
 		s := x.term(v)
